@@ -67,8 +67,26 @@ class Script:
     def regbi(self, name):
         self.add("regbi %s" % bl(name.encode()), op="regbi")
 
-    def parse(self, name):
-        self.add("parse %s" % bl(name.encode()), op="parse", t=flags(self.blobs))
+    def parse(self, name, dir=None, path=None):
+        if path is None:
+            self.add("parse %s" % bl(name.encode()), op="parse", t=flags(self.blobs))
+        else:
+            self.add("parse %s %s %s" % (bl(name.encode()), bl(dir.encode()) if dir is not None else "-", bl(path.encode())), op="parse", t=flags(self.blobs))
+
+    def prog(self, name):
+        self.add("prog %s" % bl(name.encode()), op="rename", p=sum(name.encode()) % 1000)
+
+    def mkdir(self, name):
+        self.add("mkdir %s" % bl(name.encode()), op="mkdir")
+
+    def remove_cwd(self, name):
+        """the process steps into a fresh directory and removes it: its working directory cannot be named any more"""
+        self.add("mkdir %s" % bl(name.encode()), op="mkdir")
+        self.add("chdir %s" % bl(name.encode()), op="chdir")
+        self.add("rmdir %s" % bl(("@W/" + name).encode()), op="rmcwd")
+
+    def back_cwd(self):
+        self.add("chdir %s" % bl(b"@W"), op="backcwd")
 
     def expand(self, data):
         self.add("expand %s" % bl(data), op="expand", t=flags([data]))
@@ -230,6 +248,40 @@ def dirscan_sweep(rnd):
     return out
 
 
+def path_and_environment_families():
+    """spifconf_parse(name, dir, path) - the form that looks the file up and changes directory - crossed with where the file
+    is found (cwd, dir argument, relative / absolute / second path entry), what it is (good, wrong magic, empty, missing) and the
+    process-wide state around the call (program renamed between cycles, working directory removed under the process).
+    Resources judged per call by ConfLife: descriptors, working directory, and heap per init..free cycle."""
+    out = []
+    kinds = {"ok": MAGIC + b"begin A\nx\nend\n", "badmagic": b"<other-1.0>\nx\n", "empty": b"", "missing": None,
+             "renamed": b"<prog2-0.8.1>\nbegin A\ny\nend\n"}
+    places = [("cwd", None, "."), ("cwd", None, "nowhere:."), ("d", "d", "."), ("d", None, "d"), ("d", None, "nowhere:d/"),
+              ("d", None, "@W/d"), ("d", None, "x:@W/d:."), ("d/e", "e", "d"), ("d/e", "d/e", "@W")]
+    for removed in (False, True):
+        for where, darg, path in places:
+            if removed and "@W" not in path:
+                continue                      # relative look-ups cannot succeed from a removed directory
+            s = Script("path:" + ("removed-cwd" if removed else "plain"))
+            s.mkdir("d"); s.mkdir("d/e")
+            for k, data in kinds.items():
+                if data is not None:
+                    s.file(("" if where == "cwd" else where + "/") + k + ".cfg", data)
+            for cyc, prog in enumerate(("libast", "prog2", "libast")):
+                s.prog(prog)
+                s.init(); s.reg("null", 1); s.reg("A", 2)
+                for k in kinds:
+                    if removed:
+                        s.remove_cwd("gone-%d-%s" % (cyc, k))
+                    s.parse(k + ".cfg", darg, path)
+                    if removed:
+                        s.back_cwd()
+                s.free()
+            s.prog("libast")
+            out.append(s)
+    return out
+
+
 def find_boundary_sweep():
     """spifconf_find_file() exactly at the capacity of its static path buffers: for a few name lengths every search-path
     entry length from PATH_MAX-3-len(name) to PATH_MAX+1-len(name), with and without a trailing '/', as the second entry
@@ -355,6 +407,7 @@ def c09_behaviours(ctx):
             data = x_c09.file_bytes(f)
             if data is not None:
                 s.file(bytes(f["name"]).decode(), data)
+        s.prog(bytes(inp["cfg"]["prog"]).decode())
         s.init()
         for i, nm in enumerate(inp["reg"]):
             s.reg(bytes(nm).decode(), i + 1)
@@ -383,7 +436,7 @@ def model_check(ctx):
             ctx.cov.setdefault("tlc_runs", []).append(rec)
             if not res.ok:
                 ctx.report("spec:%s" % cfg, "TLC reports a violated property of ConfLife itself: %s" % (res.violation or "")[:600], {"tlc": res.violation, "cfg": cfg})
-            unt = [a for a in res.untaken() if a.startswith("Op") and not (cfg == "ConfLife_regs.cfg" and a in ("OpParse", "OpExpand"))]
+            unt = [a for a in res.untaken() if a.startswith("Op") and not (cfg == "ConfLife_regs.cfg" and a in ("OpParse", "OpExpand", "OpRestoreCwd"))]
             if unt:
                 raise Broken("vacuity: actions never taken in %s: %s" % (cfg, unt))
         else:
@@ -411,6 +464,8 @@ def diagnose(e):
             return "temp-without-trigger"
         if o["fds"] != 0:
             return "descriptors-left-open" + ("(trigger)" if trig else "")
+        if not o["cwd"]:
+            return "working-directory-not-restored"
         if e["snap"]["f_idx"] != 0:
             return "file-stack-not-restored"
         if o["dv"] < 0:
@@ -528,8 +583,14 @@ def drive(ctx, exe, scripts, tag):
                 st = untok(state)
                 e = {"op": op, "t": m["t"], "snap": st["snap"],
                      "o": {"ns": len(st["spawn"]), "tm": [{"mode": a, "fresh": b} for a, b in st["temp"]], "dv": st["snap"]["nvars"] - nv,
-                           "d": st["snap"]["cs_idx"], "fds": st["fds"]}}
+                           "d": st["snap"]["cs_idx"], "fds": st["fds"], "cwd": bool(st["cwd"])}}
                 nv = st["snap"]["nvars"]
+            elif op == "rename":
+                e = {"op": "rename", "p": m["p"]}
+            elif op in ("rmcwd", "backcwd"):
+                if ret != "T":
+                    raise Broken("harness could not %s in script %d" % (op, sid))
+                e = {"op": op}
             elif op == "free":
                 st = untok(state)
                 e = {"op": "free", "heap": int(ret), "snap": st["snap"], "leaks": st["leaks"]}
@@ -619,7 +680,7 @@ def run(ctx):
     model_check(ctx)
     log("model checking done %.0fs" % (time.time() - ctx.t0))
     rnd = random.Random(ctx.seed)
-    adv = adversarial(rnd) + builtin_near_misses() + dirscan_sweep(rnd)
+    adv = adversarial(rnd) + builtin_near_misses() + dirscan_sweep(rnd) + path_and_environment_families()
     ev = drive(ctx, exe, adv, "adversarial")
     ctx.sample({"adversarial_families": sorted(set(re.sub(r"-\d+$", "", s.fam) for s in adv))})
     log("adversarial done %.0fs" % (time.time() - ctx.t0))
@@ -632,9 +693,10 @@ def run(ctx):
         cfg = c09.gen_tree(rnd, big=(k % 5 == 0))
         s = Script("rnd:tree")
         for f, (kd, lines) in enumerate(zip(cfg["kinds"], cfg["content"]), 1):
-            data = x_c09.file_bytes({"kind": kd, "lines": lines})
+            data = x_c09.file_bytes({"kind": kd, "lines": lines, "magic": cfg["magic"][f - 1]})
             if data is not None:
                 s.file("f%03d.cfg" % f, data)
+        s.prog(bytes(cfg["prog"]).decode())
         for cyc in range(2):
             s.init()
             regl = (["null"] if cfg["nullmode"] == "first" else []) + [bytes(n).decode() for n in cfg["names"]] + (["null"] if cfg["nullmode"] == "last" else [])
